@@ -30,6 +30,25 @@ fn main() {
     }
     let seed: u64 = std::env::var("VERIF_SEED").ok().and_then(|s| s.trim().parse::<i64>().ok()).map(|v| v as u64).unwrap_or(1);
     match args[1].as_str() {
+        "setup" => {
+            // build everything the checks need (harness is built by bin/check itself), then self-test
+            for (name, r) in [("plain binary", bb::build_plain()), ("hooked binary", bb::build_hooked())] {
+                match r {
+                    Ok(p) => println!("built {}: {}", name, p.display()),
+                    Err(e) => {
+                        println!("INCONCLUSIVE setup: {}", e);
+                        std::process::exit(2);
+                    }
+                }
+            }
+            match oracle::selftest::run(true) {
+                Ok(msg) => println!("{}", msg),
+                Err(e) => {
+                    println!("INCONCLUSIVE harness self-test failed:\n{}", e);
+                    std::process::exit(2);
+                }
+            }
+        }
         "selftest" => {
             let full = args.get(2).map(|s| s == "full").unwrap_or(false);
             match oracle::selftest::run(full) {
